@@ -324,7 +324,11 @@ def _get_dict(data):
         try:
             return dict(data)
         except (ValueError, TypeError):
-            raise ValueError("Cannot convert '%s' to dictionary." % str(data))
+            try:
+                shown = str(data)
+            except RecursionError:
+                shown = "<%s nested too deeply to show>" % type(data).__name__
+            raise ValueError("Cannot convert '%s' to dictionary." % shown)
 
 
 def get_class_hierarchy_names(obj):
